@@ -161,6 +161,8 @@ UNITS = [
     ("expr", "${'e'}\n"), ("multiexpr", "${[1,\n 2,\n 3][0]}\n"), ("block", "<%\n    q1 = 1\n    q2 = 2\n%>\n"),
     ("control", "% if True:\n  inner\n% endif\n"), ("def", '<%def name="p{N}()">\n  body\n</%def>\n'),
     ("texttag", "<%text>\n% raw ${x}\n</%text>\n"), ("crlfblock", "<%\r\n    q3 = 1\r\n%>\r\n"), ("percent", "%% literal\n"),
+    # characters str.splitlines() takes for line boundaries; the lexer and Python count "\n" only
+    ("seps", "page\x0cbreak \x0b \x1c\x1d\x1e \x85 \u2028 \u2029 end\n"), ("formfeed", "\x0c\n"),
 ]
 
 
@@ -208,6 +210,20 @@ def compile_paths(src, d, k):
     yield "file", fn, lambda: Template(filename=fn)
     yield "lookup", fn, lambda: TemplateLookup(directories=[d]).get_template("t%d.html" % k)
     yield "module_directory", fn, lambda: Template(filename=fn, module_directory=moddir)
+    # a module directory shared with a lookup over ANOTHER root that served the same URI first (its module file is newer
+    # than this file): the module is regenerated from this file, and the error names this file
+    ra, rb, md2 = os.path.join(d, "ra%d" % k), os.path.join(d, "rb%d" % k), os.path.join(d, "mod2_%d" % k)
+    os.makedirs(ra)
+    os.makedirs(rb)
+    with open(os.path.join(ra, "page%d.html" % k), "w") as fh:
+        fh.write("good template of the other root\n")
+    TemplateLookup(directories=[ra], module_directory=md2).get_template("page%d.html" % k)
+    fnb = os.path.join(rb, "page%d.html" % k)
+    with open(fnb, "wb") as fh:
+        fh.write(src.encode("utf-8"))
+    old = os.stat(os.path.join(md2, "page%d.html.py" % k)).st_mtime - 100
+    os.utime(fnb, (old, old))
+    yield "module_directory-other-root", fnb, lambda: TemplateLookup(directories=[rb], module_directory=md2).get_template("page%d.html" % k)
     # compiled as a side effect of rendering another template that includes / inherits / imports it
     for how, outer in (("include", 'o1\no2\n<%%include file="t%d.html"/>\n'), ("inherit", '<%%inherit file="t%d.html"/>\nbody\n'),
                        ("namespace", 'o1\n<%%namespace name="n" file="t%d.html"/>\n${n.body()}\n')):
@@ -282,6 +298,16 @@ def check_case(case, ev=None, tmp=None):
             squash = lambda z: re.sub(r"\s+", "", z)
             if shown and squash(shown) not in squash(plain):
                 raise Failure(case, "fault %s path %s: html error template does not show the faulty line %r" % (fault["kind"], pname, shown) + tag, "html-template-line")
+            # with pygments the page marks ONE line as the line in error (number + text)
+            m = re.search(r'<table class="error syntax-highlightedtable">(.*?)</table>', htm, re.S)
+            if m:
+                mn = re.search(r'<td class="linenos">(.*?)</td>', m.group(1), re.S)
+                mc = re.search(r'<td class="code">(.*?)</td>', m.group(1), re.S)
+                num = _html.unescape(re.sub(r"<[^>]+>", "", mn.group(1))).strip() if mn else None
+                code = _html.unescape(re.sub(r"<[^>]+>", "", mc.group(1))) if mc else ""
+                if num != str(eline) or squash(code) != squash(lines[eline - 1] if eline - 1 < len(lines) else ""):
+                    raise Failure(case, "fault %s path %s: html error template marks line %s %r as the line in error, the fault is on line %d %r"
+                                  % (fault["kind"], pname, num, code.strip(), eline, shown) + tag, "html-template-error-line")
     first = results[0]
     for r in results[1:]:
         if (r[2], r[3], r[4]) != (first[2], first[3], first[4]):
